@@ -871,3 +871,26 @@ reg(Prop("C19", "The tuner optimises the same evaluation the engine plays with",
                       "halfmove clock 0..200 (|100 - clock| <= 100); outside it the taper factor exceeds 1",
                       "no int16 overflow in the integer evaluation (hypothesis no_wrap of the partial theorem, evaluated on every case of stream c19z)"],
          extra=c19_extra, design_ref="5/C19"))
+
+reg(Prop("C09", "Fast checkmate and stalemate tests agree with the absence of legal moves", "Properties/C09.v",
+         [StreamCfg("c09", 12000, 800000, judge="judge_c09",
+                    rule="hand-constructed hard cases (smothered/back-rank mates, pinned interposers, en-passant capture of a "
+                         "checking pawn, double-push blocks, x-ray through the king, stalemates with pinned men, stalemate broken "
+                         "only by en passant) with colour mirrors and single-piece mutations; small material sampled uniformly per "
+                         "class from the integer-indexed enumerator (KQK KRK KPK KBNK KQKR KRKP KPKP, both colours, both sides to "
+                         "move, every consistent en-passant state); themed random king-hunt positions biased to <= 2 legal moves; "
+                         "play-outs / sparse placements / mutations filtered for in-check, pinned man, en-passant target or <= 2 "
+                         "legal moves; non-trivial = every case; distinct by FEN"),
+          StreamCfg("c09sweep", 48, 200000, judge="judge_c09",
+                    rule="implementation-side sweep of the small-material index space (quick: a random 1/251 sub-lattice, "
+                         "thorough: every index, about 10^8 positions of the domain): IsCheckmate/IsStalemate against the engine's own "
+                         "playable-move count; every disagreement and a sample of the agreeing positions are handed to the model "
+                         "and to the spec judge; the histogram keys swept-* give the volume"),
+          StreamCfg("c09ab", 1500, 100000,
+                    rule="Board.Attackers / Board.Block on positions of the shared generators with random square sets and colours")],
+         trusted=["hook board/export_verif.go (VerifSnapshot/VerifRestore: building engine boards from the wire format)",
+                  "harness/posgen: Valid / NormalEP are only pre-filters; the judge re-checks `valid` and `normal_ep` with the extracted spec",
+                  "attack primitives: the model uses the geometric sliders/leapers of Spec/Geometry.v; that the engine's magic tables compute the same is property C12 and is exercised again by this stream"],
+         assumptions=["Rep b (the three encodings of the placement agree, C04), valid (abs b), normal_ep (abs b); the theorems speak about legal_moves of the spec (C01 identifies them with the engine's playable moves)",
+                      "IsCheckmate is specified only for positions in check, IsStalemate only for positions not in check (their only callers, search.go quiescence, guarantee this; outside its domain IsCheckmate panics on InBetween[kingSq][64])"],
+         design_ref="5/C09"))
